@@ -337,6 +337,18 @@ def c11(r):
                 out.append(('fields', {'field': 'runid'}, 'db.next() consulted %d times for %d jobs without run id' % (len(nexts), len(need_fresh)), c['i']))
             if not active_before and (ob['outs'] or ob != dict(bf, outs=ob['outs'])):
                 pass
+        if ev[0] == 'tick' and [7] in ob['outs'] and bf is not None:
+            # the tick that starts the archive: the pipeline is no longer active,
+            # every worker that was waiting is told to leave and leaves the idle list
+            told = {o[1] for o in ob['outs'] if o[0] == 3}
+            tasked = {o[1] for o in ob['outs'] if o[0] == 1}
+            for w in bf['workers']:
+                if w not in told and w not in tasked:
+                    out.append(('not-told-to-leave', {}, 'worker %d was idle when the archive started and was not told to leave' % w, c['i']))
+            if ob['workers']:
+                out.append(('not-told-to-leave', {'listed': True}, 'idle list %s after the tick that started the archive' % ob['workers'], c['i']))
+            if tasked:
+                out.append(('task-while-inactive', {}, 'task message sent by the tick that started the archive', c['i']))
         if not active_before:
             for o in ob['outs']:
                 if o[0] in (1, 2, 4):
